@@ -12,6 +12,7 @@ from xh_support import prepare_cattrs  # noqa: E402
 conv = prepare_cattrs("cl14.core.cattrs_converter")
 S = conv.structure_from_dict
 U = conv.unstructure_to_dict
+from cl14.models import Animal, BarePet, Kit, MixedPet, Pup, Reading  # noqa: E402
 from cl14.models import (AllOpt, BankPay, Basic, CardPay, Cat, Circle, Detailed, Dog, Holder, IntOrStr, ListOrBasic, OptA, OptB, Overlap, OverlapRev, Pay, Pet, Shape,  # noqa: E402
                          Square, StrOrBasic)
 
@@ -44,7 +45,9 @@ def _same(a, b):
 for _t, _d in [(Pay, {"method": "credit-card", "pan": "1"}), (Pay, {"method": "credit_card", "iban": "2"}), (Pet, {"kind": "cat", "name": "n", "lives": 1}), (Pet, {"kind": "dog", "name": "n", "barkVolume": 1}), (Shape, {"r": 1}), (Shape, {"side": 1}),
                (Overlap, {"id": "a"}), (Overlap, {"id": "a", "extra": 1}), (OverlapRev, {"id": "a"}), (OverlapRev, {"id": "a", "extra": 1}),
                (AllOpt, {"x": 1}), (AllOpt, {"y": 1}), (IntOrStr, 1), (IntOrStr, "s"), (StrOrBasic, "s"), (StrOrBasic, {"id": "a"}),
-               (ListOrBasic, ["a"]), (ListOrBasic, {"id": "a"}),
+               (ListOrBasic, ["a"]), (ListOrBasic, {"id": "a"}), (Reading, {"code": 1, "flag": True, "opt": "s"}), (Reading, {"code": "s", "flag": 1}), (Reading, {"code": None, "flag": None}),
+               (Animal, {"species": "cat", "name": "n"}), (Animal, {"species": "kitten", "name": "n"}), (Animal, {"species": "dog", "name": "n"}),
+               (BarePet, {"kind": "cat", "name": "n"}), (BarePet, {"kind": "dog", "name": "n"}), (MixedPet, {"kind": "cat", "name": "n"}), (MixedPet, {"kind": "dog", "name": "n"}),
                (Holder, {"pet": {"kind": "cat", "name": "n"}, "shape": {"r": 1}, "shapes": [{"side": 2}], "maybePet": {"kind": "dog", "name": "d"}})]:
     try:
         _enc(S(copy.deepcopy(_d), _t))
@@ -202,6 +205,117 @@ def tw_primitive_union(is_int: bool, i: int, s: str) -> bool:
     post: _
     """
     S(i if is_int else s, IntOrStr)
+    return False
+
+
+DIGITS = ["0", "00", "7", "-1", "1e3", " 5"]
+
+
+def _reading_ok(doc):
+    back = U(S(copy.deepcopy(doc), Reading))
+    for k, v in doc.items():
+        if v is None:
+            if back.get(k) is not None:
+                return False
+        elif back.get(k) != v or type(back.get(k)) is not type(v):
+            return False
+    return True
+
+
+def ob_nullable_union_code(ck: int, i: int, s: str, d: int) -> bool:
+    """
+    pre: 0 <= ck <= 3 and len(s) <= 2 and 0 <= d < 6
+    post: _
+    """
+    return _reading_ok({"code": [i, s, DIGITS[d], None][ck], "flag": None})  # int, string, number-like string, null
+
+
+def tw_nullable_union_code(ck: int, i: int, s: str, d: int) -> bool:
+    """
+    pre: 0 <= ck <= 3 and len(s) <= 2 and 0 <= d < 6
+    post: _
+    """
+    U(S({"code": DIGITS[d], "flag": None}, Reading))
+    return False
+
+
+def ob_nullable_union_flag(fk: int, i: int, b: bool) -> bool:
+    """
+    pre: 0 <= fk <= 2
+    post: _
+    """
+    return _reading_ok({"code": None, "flag": [i, b, None][fk]})
+
+
+def tw_nullable_union_flag(fk: int, i: int, b: bool) -> bool:
+    """
+    pre: 0 <= fk <= 2
+    post: _
+    """
+    U(S({"code": None, "flag": b}, Reading))
+    return False
+
+
+def ob_optional_union_field(has_opt: bool, opt_digits: bool, i: int, d: int) -> bool:
+    """
+    pre: 0 <= d < 6
+    post: _
+    """
+    doc = {"code": 1, "flag": 1}
+    if has_opt:
+        doc["opt"] = DIGITS[d] if opt_digits else i
+    return _reading_ok(doc)
+
+
+def tw_optional_union_field(has_opt: bool, opt_digits: bool, i: int, d: int) -> bool:
+    """
+    pre: 0 <= d < 6
+    post: _
+    """
+    U(S({"code": 1, "flag": 1, "opt": DIGITS[d]}, Reading))
+    return False
+
+
+SPECIES = ["cat", "kitten", "dog"]
+
+
+def ob_many_to_one_mapping(k: int, name: str) -> bool:
+    """
+    pre: 0 <= k <= 2 and len(name) <= 2
+    post: _
+    """
+    doc = {"species": SPECIES[k], "name": name}
+    x = S(dict(doc), Animal)
+    return type(x) is (Pup if k == 2 else Kit) and _norm(_enc(x)) == _norm(doc)
+
+
+def tw_many_to_one_mapping(k: int, name: str) -> bool:
+    """
+    pre: 0 <= k <= 2 and len(name) <= 2
+    post: _
+    """
+    S({"species": SPECIES[k], "name": name}, Animal)
+    return False
+
+
+def ob_bare_name_mapping(mixed: bool, k: int, name: str, has_extra: bool, n: int) -> bool:
+    """
+    pre: 0 <= k <= 1 and len(name) <= 2
+    post: _
+    """
+    doc = {"kind": KINDS[k], "name": name}
+    if has_extra:
+        doc["lives" if k == 0 else "barkVolume"] = n
+    x = S(dict(doc), MixedPet if mixed else BarePet)
+    return type(x) is (Cat if k == 0 else Dog) and _norm(_enc(x)) == _norm(doc)
+
+
+def tw_bare_name_mapping(mixed: bool, k: int, name: str, has_extra: bool, n: int) -> bool:
+    """
+    pre: 0 <= k <= 1 and len(name) <= 2
+    post: _
+    """
+    S({"kind": KINDS[k], "name": name}, BarePet)
     return False
 
 
